@@ -15,3 +15,4 @@ open XotModel.Props
 #print axioms C01_rendering_lexok
 #print axioms C01_rendering_lexok_fragment
 #print axioms C01_rendering_decodes
+#print axioms C01_value_spelling
